@@ -192,8 +192,9 @@ def rule_placement(ctx, R, NR, BR, rules=None):
             okl = labels[0] == "var"
             if okl:
                 ladds = coll.additions(S, lambda t: core.same(t, labels), closures=True)
-                okl = len(ladds) == 1 and m(It(C("alloc::collections::BTreeMap::keys", F(nstate, "edges", NS))), ladds[0].val) and \
-                    ladds[0].unconditional()
+                keys_ = C("alloc::collections::BTreeMap::keys", F(nstate, "edges", NS))
+                okl = len(ladds) == 1 and m(It(OneOf(keys_, C("core::iter::Iterator::copied", keys_), C("core::iter::Iterator::cloned", keys_))),
+                                            ladds[0].val) and ladds[0].unconditional()
                 clears = [s for s in S.keyed(lambda k: k == "alloc::vec::Vec::clear") if core.same(s["args"][0], labels)]
                 okl = okl and len(clears) == 1 and b.dominates(clears[0]["bb"], fb["bb"])
             if want("DA-BASE"):
@@ -984,8 +985,21 @@ def _cw_nfa_fn(ctx, v, NR, b, S, want):
             # the histogram's length must not depend on the order in which characters were seen: grown to exactly c+1
             rs = [s_ for s_ in S.keyed(lambda k: k == "alloc::vec::Vec::resize") if core.same(s_["args"][0], freqs)]
             okr = True
+            def max_of_counted(t, e):
+                # the largest of the very items the counting loop walks: `chars.iter().max()` over the same collection
+                if not (t[0] == "payload" and t[1][0] == "call" and isinstance(t[1][1], str) and core.callee_base(t[1][1]) == "core::iter::Iterator::max"
+                        and len(t[1][2]) == 1):
+                    return False
+                src_ = pat.strip_iter(pat.iter_origin(t[1][2][0]))
+                idx_ = incs[0]["tgt"][2]
+                cnt_ = None
+                for y in walk(idx_):
+                    if y[0] == "call" and isinstance(y[1], str) and core.callee_base(y[1]) == ITER_NEXT and y[2]:
+                        cnt_ = pat.strip_iter(pat.iter_origin(y[2][0]))
+                return cnt_ is not None and core.same(src_, cnt_)
             for s_ in rs:
-                okr = okr and okf and m(B("Add", lambda t, e: core.same(t, incs[0]["tgt"][2]), K(1)), s_["args"][1]) and is_const(s_["args"][2], 0)
+                okr = okr and okf and is_const(s_["args"][2], 0) and \
+                    (m(B("Add", lambda t, e: core.same(t, incs[0]["tgt"][2]), K(1)), s_["args"][1]) or m(B("Add", max_of_counted, K(1)), s_["args"][1]))
             eff = sorted({core.callee_base(s_["key"]).split("::")[-1] for s_ in S.calls if s_["args"] and core.same(s_["args"][0], freqs)
                           and not s_["c"].local and core.callee_base(s_["key"]) not in core.IDENTITY_KEYS})
             ctx.check(okr and set(eff) <= {"resize", "len", "index", "index_mut", "deref"}, "PERM-FREQ", b, "histogram-length-minimal:cw", b.span,
